@@ -7,6 +7,7 @@ import (
 	"sort"
 	"strings"
 	"sync"
+	"sync/atomic"
 	"time"
 )
 
@@ -133,6 +134,7 @@ func (b *BFS[S]) Run() BFSResult {
 	workers := runtime.GOMAXPROCS(0)
 	depth := 0
 	sigSeen := map[string]bool{}
+	var capped atomic.Bool
 	for len(frontier) > 0 {
 		if b.Depth > 0 && depth >= b.Depth {
 			break
@@ -154,6 +156,10 @@ func (b *BFS[S]) Run() BFSResult {
 			go func() {
 				defer wg.Done()
 				for i := range next {
+					if !b.Until.IsZero() && time.Now().After(b.Until) {
+						capped.Store(true)
+						continue
+					}
 					n := frontier[i]
 					var ss []succ
 					for op := range b.Ops {
@@ -181,6 +187,9 @@ func (b *BFS[S]) Run() BFSResult {
 			}()
 		}
 		wg.Wait()
+		if capped.Load() {
+			res.Capped = true
+		}
 		var nf []bnode
 		for i := range out {
 			for _, sc := range out[i] {
@@ -315,4 +324,13 @@ func (t *BFSTotals) Fill(rep *Report, rule string) {
 	c["configs"] = t.Configs
 	c["samples"] = t.Samples
 	c["rule"] = rule
+}
+
+// Cap is the wall-clock budget of one explicit-state search: when it expires the search stops, reports what it
+// found and says exhaustive:false. (A defect can make the reachable space explode; the cap keeps the verdict coming.)
+func Cap(tier string) time.Time {
+	if tier == "thorough" {
+		return time.Now().Add(25 * time.Minute)
+	}
+	return time.Now().Add(3 * time.Minute)
 }
